@@ -68,18 +68,48 @@ def plan(tier):
     return sh
 
 
+def cli_defaults(st):
+    """the defaults the command line and depccg.parsing.run hand to the search are inside the ranges the statement quantifies over"""
+    import re, os, inspect
+    src = open(os.path.join(boot.REPO, 'depccg', 'argparse.py')).read()
+    vals = {}
+    for name in ('beta', 'pruning-size'):
+        m = re.search(r"'--" + name + r"',\s*default=([0-9.e+-]+)", src)
+        if not m:
+            st.violation('defaults/missing', f'--{name} has no default in argparse.py', engine='c16_defaults')
+            continue
+        vals[name] = float(m.group(1))
+    parsing, rt = boot.load_parsing()
+    sig = inspect.signature(parsing.run)
+    vals['run.beta'] = sig.parameters['beta'].default
+    vals['run.pruning_size'] = sig.parameters['pruning_size'].default
+    vals['run.use_beta'] = sig.parameters['use_beta'].default
+    for k in ('beta', 'run.beta'):
+        st.count('default_values')
+        if k in vals and not 0 < vals[k] < 1:
+            st.violation('defaults/beta', f'default {k} = {vals[k]} is not in (0, 1)', engine='c16_defaults')
+    for k in ('pruning-size', 'run.pruning_size'):
+        st.count('default_values')
+        if k in vals and not (vals[k] >= 1 and float(vals[k]).is_integer()):
+            st.violation('defaults/pruning_size', f'default {k} = {vals[k]} is not an integer >= 1', engine='c16_defaults')
+    if '--disable-beta' not in src or vals.get('run.use_beta') is not True:
+        st.violation('defaults/use_beta', 'the beta filter is not on by default / cannot be disabled from the command line', engine='c16_defaults')
+    return vals
+
+
 def check(tier, seed):
     t0 = time.time()
     boot.load_parsing()
     shards = core.rotate(plan(tier), seed)
     st = core.pmap(sprops.run_shard, shards)
+    defaults = cli_defaults(st)
     return sprops.finish(PROP, tier, seed, st, t0, shards,
                          rule=('grammar in which every tag choice yields a distinct derivation (3 tags, n<=2): every tag row over {0,-1,-4,-150,-1e33} (-150: exp underflows in float32) for every word x pruning_size {1,2,3} '
                                'x beta {off,0.5,0.2,0.01}; plus the shared grammars under beam settings. Oracle: admitted(w) from the statement; leaves must be admitted, result must be the '
                                'optimum over admitted-only derivations, failure iff none. Ties at the pruning boundary, probabilities within e^0.3 of the threshold and all-zero '
                                'probabilities are unspecified and not judged. non-trivial = >=2 differently scored admitted derivations'),
                          assumptions=['thresholds kept a factor >1.3 away from every judged decision', 'dyadic scores'],
-                         extra=dict(unspecified_not_judged='see counters'))
+                         extra=dict(unspecified_not_judged='see counters', cli_and_api_defaults=defaults))
 
 
 def replay(rec):
